@@ -61,3 +61,46 @@ Theorem C04_run_alias_gt (F : Sc) eps g k c mask args : alias_gt k = Some c ->
   Ok (out2 F (sem2 (group_of eps g) c (arg F args 0) (arg F args 1) (bit mask 0) (bit mask 1))).
 Proof. intros H. unfold run_op. rewrite H. reflexivity. Qed.
 Print Assumptions C04_run_alias_gt.
+
+(* ---- the round trips: (X + t) - X = t and X + (Y - X) = Y, right and left, for ANY group with the C01 laws, given the
+   two halves of C03 at the relative element (log(exp t) = t when the rotation of t is below pi; exp(log Z) = Z) ---- *)
+From Manif Require Import LieSpec RoundTrip SE2 SO3 SE2Proofs SO3Proofs Log_SE2 InterpProofs InterpInst LogExp_SO3.
+Theorem C04_rplus_rminus (G : GroupOps RS) (C : GroupCore G) X t : gc_valid C X -> gc_valid C (g_exp G t) -> g_log G (g_exp G t) = t ->
+  fst (fst (rminus G (fst (fst (rplus G X t false false))) X false false)) = t.
+Proof. exact (RoundTrip.rplus_rminus G C X t). Qed.
+Theorem C04_rminus_rplus (G : GroupOps RS) (C : GroupCore G) X Y : gc_valid C X -> gc_valid C Y ->
+  g_exp G (g_log G (g_compose G (g_inverse G X) Y)) = g_compose G (g_inverse G X) Y ->
+  fst (fst (rplus G X (fst (fst (rminus G Y X false false))) false false)) = Y.
+Proof. exact (RoundTrip.rminus_rplus G C X Y). Qed.
+Theorem C04_lplus_lminus (G : GroupOps RS) (C : GroupCore G) X t : gc_valid C X -> gc_valid C (g_exp G t) -> g_log G (g_exp G t) = t ->
+  fst (fst (lminus G (fst (fst (lplus G X t false false))) X false false)) = t.
+Proof. exact (RoundTrip.lplus_lminus G C X t). Qed.
+Theorem C04_lminus_lplus (G : GroupOps RS) (C : GroupCore G) X Y : gc_valid C X -> gc_valid C Y ->
+  g_exp G (g_log G (g_compose G Y (g_inverse G X))) = g_compose G Y (g_inverse G X) ->
+  fst (fst (lplus G X (fst (fst (lminus G Y X false false))) false false)) = Y.
+Proof. exact (RoundTrip.lminus_lplus G C X Y). Qed.
+Print Assumptions C04_lminus_lplus.
+
+(* instances with the hypotheses discharged: SE2 (any translation, rotation of t in (-pi, pi]; any valid X, Y) *)
+Theorem C04_SE2_plus_minus eps X x y th : 0 < eps -> eps <= 1 -> se2_valid X -> - PI < th <= PI ->
+  fst (fst (rminus (SE2 RS eps) (fst (fst (rplus (SE2 RS eps) X [x; y; th] false false))) X false false)) = [x; y; th].
+Proof.
+  intros H H1 HX Hth. apply (RoundTrip.rplus_rminus _ (SE2_core eps H)); [exact HX| |].
+  - apply (el_exp_valid _ (SE2_explog eps H H1)). exists x, y, th. reflexivity.
+  - apply (se2_log_exp eps H H1 x y th Hth).
+Qed.
+Theorem C04_SE2_minus_plus eps X Y : 0 < eps -> eps <= 1 -> se2_valid X -> se2_valid Y ->
+  fst (fst (rplus (SE2 RS eps) X (fst (fst (rminus (SE2 RS eps) Y X false false))) false false)) = Y.
+Proof.
+  intros H H1 HX HY. apply (RoundTrip.rminus_rplus _ (SE2_core eps H)); [exact HX|exact HY|].
+  apply (se2_exp_log eps H H1). apply (gc_compose_valid _ (SE2_core eps H)); [apply (gc_inverse_valid _ (SE2_core eps H))|]; assumption.
+Qed.
+(* SO3: rotation of t below pi, generic branches *)
+Theorem C04_SO3_plus_minus eps X x y z : 0 < eps -> so3_valid X ->
+  eps < x * x + y * y + z * z -> sqrt (x * x + y * y + z * z) < PI ->
+  eps < sin (sqrt (x * x + y * y + z * z) / 2) * sin (sqrt (x * x + y * y + z * z) / 2) ->
+  fst (fst (rminus (SO3 RS eps) (fst (fst (rplus (SO3 RS eps) X [x; y; z] false false))) X false false)) = [x; y; z].
+Proof.
+  intros H HX H1 H2 H3. apply (RoundTrip.rplus_rminus _ (SO3_core eps H)); [exact HX|apply (so3_exp_valid_generic eps H x y z H1)|].
+  apply (so3_log_exp_generic eps H x y z H1 H2 H3).
+Qed.
